@@ -40,6 +40,14 @@ pub func thing.set_b!(b: base.u32[3 ..= 8]) {
     this.x = args.b
 }
 
+pub func thing.set_rs!(r: base.u32[..= 8]) base.status {
+    if args.r == 1 {
+        return "#probe error"
+    }
+    this.x = args.r
+    return ok
+}
+
 pub func thing.set_p!(p: ptr base.image_config) {
     this.x = 7
 }
@@ -363,6 +371,7 @@ int main(void) {
       else if (!strcmp(nm, "set_x")) { kind = 2; wuffs_probe__thing__set_x(self, c); }
       else if (!strcmp(nm, "set_r")) { kind = 2; wuffs_probe__thing__set_r(self, c); }
       else if (!strcmp(nm, "set_b")) { kind = 2; wuffs_probe__thing__set_b(self, c); }
+      else if (!strcmp(nm, "set_rs")) { s = wuffs_probe__thing__set_rs(self, c); }
       else if (!strcmp(nm, "set_p")) { kind = 2; wuffs_probe__thing__set_p(self, pflag ? &ic : NULL); }
       else if (!strcmp(nm, "set_np")) { kind = 2; wuffs_probe__thing__set_np(self, pflag ? &ic : NULL); }
       else if (!strcmp(nm, "cmd")) { s = wuffs_probe__thing__cmd(self, c); }
